@@ -4,7 +4,7 @@
    The complement table is a parameter: every table with [tab_wf] (complementing twice is the identity, letters go to
    letters); the harness passes aldy.common.REV_COMPLEMENT of the running tree and evaluates [tab_wf] on it. *)
 From Coq Require Import String.
-From Aldy Require Import Base Consts Coord CoordProofs.
+From Aldy Require Import Base Consts Coord CoordProofs RefPatchProofs.
 Import List.
 Open Scope Z_scope.
 
@@ -131,3 +131,30 @@ Proof. vm_compute. auto. Qed.
 (* the side condition is not vacuous the other way either: a deletion that runs over the end of its aligned block is rejected *)
 Example C08_ex_not_ok : variant_ok ex_al ex_seq 21 (Del (s "GGA")) 10 12 = false.
 Proof. vm_compute. reflexivity. Qed.
+
+(* ================================================================= the reference sequence itself (gene.py, `reference: patches`)
+   The haplotypes above are read off Gene.seq, which is the written sequence with the database's patches applied.  For every
+   sequence and every patch list with positions in 1..len: the length is kept, the base at every site is that of the LAST patch
+   naming the site and the written base where none does; every patch of a list with distinct positions takes effect.
+   (A position outside 1..len makes Python raise IndexError or, for pos <= 0, wrap around: apply_patches answers None.) *)
+Theorem C08_reference_patches_spec : forall s ps s', apply_patches s ps = Some s' ->
+  length s' = length s /\
+  forall i d, (i < length s)%nat -> nth i s' d = patched_base (nth i s d) (Z.of_nat i) ps.
+Proof. exact apply_patches_spec. Qed.
+Goal True. idtac "ASSUME C08_reference_patches_spec". Abort.
+Print Assumptions C08_reference_patches_spec.
+
+Theorem C08_every_patch_applies : forall s ps s' p d, apply_patches s ps = Some s' -> NoDup (map fst ps) -> In p ps ->
+  nth (Z.to_nat (fst p - 1)) s' d = snd p.
+Proof. exact every_patch_applies. Qed.
+Goal True. idtac "ASSUME C08_every_patch_applies". Abort.
+Print Assumptions C08_every_patch_applies.
+
+Theorem C08_unpatched_sites_keep : forall s ps s' i d, apply_patches s ps = Some s' -> (i < length s)%nat ->
+  (forall p, In p ps -> fst p - 1 <> Z.of_nat i) -> nth i s' d = nth i s d.
+Proof. exact unpatched_sites_keep. Qed.
+Goal True. idtac "ASSUME C08_unpatched_sites_keep". Abort.
+Print Assumptions C08_unpatched_sites_keep.
+
+Example C08_ex_patches : apply_patches [65;65;65;65;65;65] [(2, 84); (5, 67)] = Some [65;84;65;65;67;65].
+Proof. exact patches_example. Qed.
